@@ -207,6 +207,29 @@ let handle (case : string list) (impl : string list) : string * string =
      | [] -> ("skip typed-observation", "fails:-"))
   | _ -> ("driver-badcase", "na")
 
+(* variants of a decoded value with other addresses: every Shelley address leaf (29 or 57 bytes whose header nibble is a
+   Shelley kind) gets network id [net] (0..15 are all legal), and, when [ptr], an enterprise address becomes a pointer
+   address (kind 4/5 with three variable-length naturals appended) *)
+let rec patch_addrs (net : int) (ptr : bool) (v : val0) : val0 =
+  let go = patch_addrs net ptr in
+  match v with
+  | VBytes (h :: t) ->
+    let hi = int_of_n h / 16 and len = 1 + List.length t in
+    if (len = 57 && hi < 4) || (len = 29 && (hi = 6 || hi = 7 || hi = 14 || hi = 15)) then begin
+      if ptr && len = 29 && (hi = 6 || hi = 7) then
+        VBytes (n_of_int ((hi - 2) * 16 + net) :: (t @ [n_of_int 0x81; n_of_int 0x00; n_of_int 0x7f; n_of_int 0x05]))
+      else VBytes (n_of_int (hi * 16 + net) :: t)
+    end else v
+  | VList l -> VList (List.map go l)
+  | VStruct l -> VStruct (List.map (function Some x -> Some (go x) | None -> None) l)
+  | VVar (i, l) -> VVar (i, List.map go l)
+  | VMap l -> VMap (List.map (fun (k, x) -> (go k, go x)) l)
+  | VAlt (i, x) -> VAlt (i, go x)
+  | _ -> v
+let holds_addresses name = List.mem name
+  ["TransactionOutput"; "TransactionOutputs"; "TransactionBody"; "Transaction"; "Block"; "Withdrawals"; "Certificate";
+   "Certificates"; "VotingProposal"; "VotingProposals"; "GovernanceAction"]
+
 (* typed cases for annotated types: the JSON the model writes travels inside the case line *)
 let add_tj_cases (tier : string) (file : string) : unit =
   let ic = open_in file in
@@ -215,6 +238,7 @@ let add_tj_cases (tier : string) (file : string) : unit =
   close_in ic;
   let oc = open_out_gen [Open_append] 0o644 file in
   let k = ref 0 in
+  let nv = ref 0 in
   List.iter (fun line ->
       incr k;
       match split_ws line with
@@ -225,6 +249,16 @@ let add_tj_cases (tier : string) (file : string) : unit =
             | Ok (v, []) ->
               let j = j_json a v in
               Printf.fprintf oc "tj %s %s %s\n" name hexs (show s_json j);
+              (* the same value with its addresses on another network (all 16 ids) / as pointer addresses *)
+              if holds_addresses name then begin
+                incr nv;
+                let v2 = patch_addrs (!nv mod 16) (!nv mod 3 = 0) v in
+                if not (val_eqb v v2) && wfv sch v2 then begin
+                  let h2 = hex_of_bytes (enc sch v2) in
+                  Printf.fprintf oc "rt %s %s\n" name h2;
+                  Printf.fprintf oc "tj %s %s %s\n" name h2 (show s_json (j_json a v2))
+                end
+              end;
               (* and the value that comes back from that JSON (maps in key order, default wire forms), when different *)
               (match (try j_of_json a j with _ -> Err) with
                | Ok v' when j_wf a v && not (val_eqb v v') && wfv sch v' ->
